@@ -36,12 +36,13 @@ for pid in ALL:
             "text": getattr(m, "LEVEL_TEXT", None) or (
                 "Static analysis of the current source (ast + hand-built CFG, dominator-style path queries, call "
                 "resolution, lock sets). Decides named structural clauses that are necessary conditions of the "
-                "property and hold on every path of the code; it does NOT decide the behaviour itself. " + m.EXPLANATION),
+                "property and hold on every path of the code; it does NOT decide the behaviour itself. " + m.EXPLANATION +
+                " Plus <id>.TOTAL: every function of the property's anchor files is executable on every path (no undefined name, no local read without a reaching binding, no attribute or return value lost w.r.t. the pinned tree)."),
             "design_ref": "DESIGN.md section 5, %s" % pid,
         },
         "level_note": "Trusted: CPython's ast module, the statement-level CFG construction in sa/cfg.py, the hand-confirmed "
                       "attribute-type table in sa/resolve.py, and per-clause assumptions: " + "; ".join(m.ASSUMPTIONS),
-        "technique": getattr(m, "TECHNIQUE", "static analysis: AST/CFG path rules (must-precede, must-follow, lock-set, who-may-call, table agreement)"),
+        "technique": getattr(m, "TECHNIQUE", "static analysis: AST/CFG path rules (must-precede, must-follow, lock-set, who-may-call, table agreement, guard polarity) + reaching-definitions / return-totality over the anchor files"),
     })
 
 man = {
